@@ -186,12 +186,22 @@ func extraFields(variant int) []reflect.StructField {
 		// unexported names that do not start with a lower-case ASCII letter
 		return []reflect.StructField{{Name: "_shadow", PkgPath: "main", Type: leafT, Tag: `valid:"required"`}, {Name: "内部", PkgPath: "main", Type: reflect.SliceOf(leafT), Tag: `valid:"required"`},
 			{Name: "ünter", PkgPath: "main", Type: reflect.PtrTo(leafT), Tag: `valid:"exist"`}}
+	case 5:
+		// exported names that start with a non-ASCII upper-case letter: marked sub-objects like any other
+		return []reflect.StructField{{Name: "Ärger", Type: leafT, Tag: `valid:"required"`}, {Name: "Дата", Type: reflect.SliceOf(reflect.PtrTo(leafT)), Tag: `valid:"exist"`},
+			{Name: "Ωmega", Type: reflect.PtrTo(leafT)}}
 	}
 	return nil
 }
 
 func setExtras(v reflect.Value, variant int) {
 	switch variant {
+	case 5:
+		v.FieldByName("Ärger").Set(reflect.ValueOf(leafBAD))
+		s := reflect.MakeSlice(reflect.SliceOf(reflect.PtrTo(leafT)), 2, 2)
+		s.Index(1).Set(ptrTo(reflect.ValueOf(leafBAD)))
+		v.FieldByName("Дата").Set(s)
+		v.FieldByName("Ωmega").Set(ptrTo(reflect.ValueOf(leafBAD))) // unmarked
 	case 3:
 		v.FieldByName("U").Set(reflect.ValueOf(leafBAD))
 		v.FieldByName("UP").Set(ptrTo(reflect.ValueOf(leafBAD)))
@@ -366,7 +376,7 @@ func run(c *runner.Ctx) {
 	c.Space("depth2/one-field")
 	for _, ct := range containers(leafT) {
 		for _, mk := range marks {
-			for ex := 0; ex < 5; ex++ {
+			for ex := 0; ex < 6; ex++ {
 				fields := append([]reflect.StructField{{Name: "F0", Type: ct, Tag: tagOf(mk)}}, extraFields(ex)...)
 				st := reflect.StructOf(fields)
 				vs := vals(ct, leafMenu)
